@@ -121,7 +121,7 @@ def main(tier_, replay=None):
     proofs_ok = b["ok"] and not gate
     engine_env.setup()
     rng = random.Random(seed * 104729 + 7)
-    n_schemas, n_docs, per_rule = (3, 10, 3) if tier_ == "quick" else (16, 24, 8)
+    n_schemas, n_docs, per_rule = (3, 10, 3) if tier_ == "quick" else (10, 16, 5)
     batches = []
     ws = witness_schema()
     witems = [{"text": q, "variables": v, "opname": None, "rule": rule, "where": "witness", "kf": kf} for kf, rule, q, v in WITNESSES]
